@@ -3,3 +3,5 @@ import MiniMcmcVerif.Model.Run
 import MiniMcmcVerif.Props.C09
 import MiniMcmcVerif.Model.Gibbs
 import MiniMcmcVerif.Props.C05
+import MiniMcmcVerif.Model.Categorical
+import MiniMcmcVerif.Props.C16
